@@ -151,3 +151,15 @@ Theorem C02_url_exact : forall c rules s dec, query_unescape s = inl dec ->
           (flat_map (fun q => flat_map (fun vn => snd (url_out c (param_key q) (param_val q) vn)) (entry_rules rules (param_key q))) (split query AMP))).
 Proof. exact url_valid_exact. Qed.
 Print Assumptions C02_url_exact.
+
+(* "one rule instance writes at most one clause", FROM THE SOURCE TEXT of 24 rule functions (the size, string and content
+   rules; see C15_message_discipline_from_source): for every rule text, names and value, the function returns and what it
+   appended to the error buffer is nothing or the result of ONE call of GetJoinValidErrStr / GetJoinFieldErr on the
+   field's own object and field name — one clause, naming its field. *)
+From PGV Require Import Base.MiniGo Extracted.SourceFnsRule Extracted.SourceFnsFmt Model.GoRule Proofs.GoMsgDiscipline.
+Theorem C02_one_clause_per_instance_from_source :
+  forall (orc : oracles) (U : val -> str) (FE : str -> str -> ftext -> str) (ST : str -> str) f vn obj field v,
+  In f rule_fns ->
+  exists t, run_rule orc U FE ST f vn obj field v = Some t /\ shape FE ST vn obj field t.
+Proof. exact message_discipline. Qed.
+Print Assumptions C02_one_clause_per_instance_from_source.
